@@ -300,7 +300,7 @@ def in_inactive_macro(toks, p):
     return False
 
 
-def extract(text, spec):
+def extract(text, spec, with_attrs=False):
     """spec: ' :: '-separated path. Each element but the last names a container
     (`impl ... for X`, `mod name`, `cfg_64!`, `macro_rules! name`); the last names the item:
     `fn NAME`, `struct NAME`, `enum NAME`, `const NAME`, `type NAME`, or `arm N` (N-th arm of a
@@ -374,7 +374,7 @@ def extract(text, spec):
                         k += 1
                     if end is None:
                         continue
-                    new.append((st, end + 1, "item"))
+                    new.append((a0 if with_attrs else st, end + 1, "item"))
                 else:
                     # container: header tokens followed (eventually) by a delimiter group
                     k = q
